@@ -16,7 +16,9 @@ RULE = ("a generated history (script, 3 peers signing their own results, schedul
         "slot; Failed<->Executed (both directions: one service returns an object shaped like a failure), Scalar<->Stream, result->Unused; "
         "Unused value / pending->Unused; signature swapped, taken from the attacker, made by the attacker over the victim's list, dropped; a pending canon presented as canonicalized by the attacker; signatures or the whole data of the other particle; state dropped / duplicated; canon "
         "tetraplet, canon value list, canon result under the same id; dangling id), optionally re-signed with the ATTACKER'S OWN key, "
-        "re-encoded and run through the real execute_air at the victim; "
+        "re-encoded and run through the real execute_air at the victim; the `dependent` family (4 peers, calls over scalars only, one call "
+        "whose argument comes from a par sibling unknown at the victim when the delivery arrives) is additionally judged by the victim's "
+        "call requests: a request whose arguments differ from every request of that function in the honest history is a forged binding; "
         "distinct = different (sorted operation kinds, re-signed?, outcome class, model verdict class); every case is non-trivial "
         "(an operation that finds no target is skipped and counted)")
 PARTIAL = ["C14_full is refuted twice (both reproduced on /repo): an Executed(Unused value_cid) state carries a value id only, is attributed to nobody "
@@ -124,9 +126,12 @@ def crafted_script(rng):
 def dependent_script(rng):
     p, q, r, m = rng.sample(["A", "B", "C", "D"], 4)
     fn = rng.choice(["id", "args"])
-    s = ('(par (call "@%s" ("s" "tag") [] acct) '
+    # R hands `acct` to Q itself (a call on a remote peer is recorded as sent without resolving its arguments, so P's own
+    # request for the dependent call reaches Q before `acct` does): the honest history then runs to the end, and P's honest
+    # request for `res` is known to the oracle (rule (C) of the driver: scalar_only)
+    s = ('(par (seq (call "@%s" ("s" "tag") [] acct) (call "@%s" ("s" "id") [acct] fw)) '
          '(par (seq (call "@%s" ("s" "%s") ["guest"] g) (seq (call "@%s" ("s" "tag") [g] t2) (call "@%s" ("s" "id") [t2] fin))) '
-         '(seq (call "@%s" ("s" "%s") [acct] ok) (call "@%s" ("s" "args") [ok] res))))') % (r, q, fn, m, p, q, fn, p)
+         '(seq (call "@%s" ("s" "%s") [acct] ok) (call "@%s" ("s" "args") [ok] res))))') % (r, q, q, fn, m, p, q, fn, p)
     return s, "ABCD".index(p)
 
 
@@ -161,7 +166,7 @@ def gen_cases(rng, tier, escalate=False):
     for k in range({"quick": 6, "thorough": 40}[tier] * mult):
         script, init = dependent_script(rng)
         cases.append({"gen": "dependent", "script": script, "peers": airgen.PEERS[:4], "init": init, "services": SERVICES,
-                      "ops": airgen.fifo_schedule(6), "particle_id": "dependent-%d" % k, "tampers": dependent_tampers(rng, per + 16)})
+                      "ops": airgen.fifo_schedule(6), "particle_id": "dependent-%d" % k, "scalar_only": True, "tampers": dependent_tampers(rng, per + 16)})
     return cases
 
 
